@@ -531,6 +531,7 @@ func runC17(c *core.Ctx) core.Meta {
 	})
 
 	checkIntegerWidths(c, "R17.17", "Addresses and offsets in the banked memory are not narrowed.", 5, []widthScope{{rel: sbmPkg}}, []string{"narrow", "widen-wrapped", "unsigned-diff"}, widthAllowC17)
+	checkMaskWalkedPerByte(c, "R17.18", "In the banked memory this is the merge of a masked write into the stored bytes.", 1, sbmPkg)
 	return core.Meta{Level: "other",
 		Explanation: "Structural clauses of the banked memory model decided on SSA of simplebankedmemory: one response per request (Pop only after a successful/CanSend-guarded Send, input popped after success, storage access once across retries), masked-write guard per byte, conservation of requests in the dispatch loop and the drain loop, per-bank order (no direct pipeline entry while the delay queue may hold earlier requests; FIFO delay queue), FIELDS of responses and of the storage accesses.",
 		NotDecided:  "latency parameters, bank selection arithmetic, pipeline internals (akita pipelining), byte values",
